@@ -80,6 +80,7 @@ def handle (j : Json) : Except String Json := do
     let o ← match kind with
       | "stop" => pure (Search.stopSearch σ lo hi)
       | "skip" => pure (Search.skipSearch σ lo hi)
+      | "given" => pure (Search.givenSearch σ ((jNat j "given").toOption) lo hi)
       | "timed" => do
         let late ← jList (·.getBool?) j "late"
         pure (Search.stopSearchTimed σ (scriptFn lo late true) lo hi)
